@@ -152,8 +152,6 @@ func (e *Engine) vpCall(st *State, name string, args []Value, site ssa.Instructi
 		set := constStr(args[1], "vp.Chars charset")
 		n := constInt(args[2], "vp.Chars n")
 		in := e.newInput(st, label, "string", "string")
-		t := e.freshVar("in_"+label, SStr)
-		in.Term = t
 		var cs []*Term
 		for i := 0; i < n; i++ {
 			cn := e.fresh(fmt.Sprintf("chr_%s_%d", label, i))
@@ -171,8 +169,10 @@ func (e *Engine) vpCall(st *State, name string, args []Value, site ssa.Instructi
 			e.sol.Assert(Or(alts...))
 			cs = append(cs, StrFromCode(ct))
 		}
+		// the input is read back from the model as the concatenation itself: no string variable, so the
+		// solver context stays in linear integer arithmetic
 		v := Concat(cs...)
-		e.sol.Assert(&Term{S: "(= " + t.S + " " + v.S + ")", Sort: SBool})
+		in.Term = v
 		ret(st, v)
 	case "Bytes":
 		label := constStr(args[0], "vp label")
